@@ -160,6 +160,156 @@ Example C03_example_run :
   end.
 Proof. vm_compute. reflexivity. Qed.
 
+(** * The chains as pointers (pointer-level model HashLinksModel.v)
+
+    [lexec] / [lstep] run src/hash.c on what the C code has: every bucket is a
+    head pointer and a clean bit, every node's [next] field lives in one node
+    memory shared by all tables; every C statement that writes a link is one
+    memory update, in source order -- the head insert of cstl_hash_insert,
+    the pointer-to-pointer walk and the splice of cstl_hash_erase (the erased
+    node's own [next] is left as it is), the detach-and-reinsert loop of
+    cstl_clean_bucket (successor read before the node is re-linked), the
+    chain walks of find / foreach / foreach_const / clear (successor read
+    before the visit; the erase-and-free visitor and the clear callback
+    poison the node, a later read of it is a fault).  [srel s ls] says that
+    the pointer-level system [ls] holds the functional system [s]: same
+    allocator state, same scalar fields, same clean bits, and in every
+    bucket the head pointer and the [next] links spell exactly the list of
+    the functional bucket and end in NULL ([spells]). *)
+From Cstl Require Import HashLinksModel HashLinksProofs HashLinksOps HashLinksWalk HashLinksSim.
+
+Section C03_links.
+  Variable hf : fn_id -> N -> N -> option N.
+  Variable key : nat -> N.
+  Variable ok : nat -> N -> bool.
+  Hypothesis Hdef : hf_def hf.
+
+  Notation step := (step hf key fixed ok).
+  Notation lstep := (HashLinksModel.lstep hf key ok).
+  Notation sys_inv := (sys_inv hf key).
+
+  (** 8. every history of the pointer-level model is the history of the
+      functional model: same per-operation outputs (results and the encoded
+      work log: hash calls, cleaned buckets, offers, successor reads,
+      visits, clear callbacks), the same outcome at the same place (abort,
+      out-of-domain call), never a fault; the final states are related by
+      [srel] and satisfy [sys_inv].  Hence every theorem above (and those of
+      Properties_C04.v, Properties_C19.v, Properties_C17b.v), which speak
+      about outputs and states of [step] / [exec], holds for the run of the
+      pointer-level model. *)
+  Theorem C03_links_run_refines n ops :
+    match run step (sys_init n) ops with
+    | (Done s o1, outs) =>
+      exists ls, run lstep (lsys_init n) ops = (Done ls o1, outs) /\ srel s ls /\ sys_inv s
+    | (Abort, outs) => run lstep (lsys_init n) ops = (Abort, outs)
+    | (Precond, outs) => run lstep (lsys_init n) ops = (Precond, outs)
+    | (Fault, _) => False
+    end.
+  Proof.
+    exact (lrun_sim hf key ok Hdef ops (sys_init n) (lsys_init n) (sys_inv_init hf key n) (srel_init n)).
+  Qed.
+
+  (** 9. in every state reachable by the pointer-level model the chains are
+      well formed: the state represents a reachable functional state [s]
+      ([srel]: every head pointer + [next] links spell the functional bucket
+      and end in NULL); the bounded walk from every bucket head (at most
+      size + 1 steps) ends at NULL having read only linked nodes and finds
+      exactly the functional chain; and all chains of all tables together
+      contain no node twice -- so every chain is acyclic and no node is in
+      two chains *)
+  Theorem C03_chains_wellformed n ls :
+    reach lstep (lsys_init n) ls ->
+    exists s,
+      reach step (sys_init n) s /\ sys_inv s /\ srel s ls /\
+      NoDup (concat (map (fun t => concat (map chain (bks t))) (tabs s))) /\
+      (forall i t lt, nth_error (tabs s) i = Some t -> nth_error (ltabs ls) i = Some lt ->
+         length (lbks lt) = length (bks t) /\
+         forall j b lb, nth_error (bks t) j = Some b -> nth_error (lbks lt) j = Some lb ->
+           spells (lmem ls) (hd lb) (chain b) /\
+           l_chain (lfuel lt) (lmem ls) (hd lb) = Some (chain b) /\ NoDup (chain b)).
+  Proof.
+    intros R. destruct (lreach_sim hf key ok Hdef n ls R) as (s & Rs & SR & SI).
+    exists s. split; [exact Rs|]. split; [exact SI|]. split; [exact SR|].
+    split; [exact (proj2 SI)|].
+    intros i t lt Et Elt. pose proof SR as (_ & HT).
+    destruct (Forall2_nth _ _ _ _ _ HT Et) as (lt' & Elt' & Ht). rewrite Elt in Elt'. injection Elt' as <-.
+    split; [symmetry; apply (Forall2_len _ _ _ (tr_bks _ _ _ Ht))|].
+    intros j b lb Eb Elb.
+    destruct (Forall2_nth _ _ _ _ _ (tr_bks _ _ _ Ht) Eb) as (lb' & Elb' & _ & Hsp).
+    rewrite Elb in Elb'. injection Elb' as <-.
+    split; [exact Hsp|]. split.
+    - eapply srel_chains; eauto. apply (sys_inv_good hf key s SI).
+    - eapply chain_nodup; [|exact Eb]. rewrite <- live_lv.
+      apply (inv_nodup _ _ t (proj1 (Forall_nth _ _ _ _ (proj1 SI) Et))).
+  Qed.
+
+  (** 10. the pointer-to-pointer walk of cstl_hash_erase on a well-formed
+      chain: it terminates; it ends at NULL exactly when the node passed is
+      not in the chain (then nothing is written); otherwise it ends with
+      [hep.n] pointing at the link that holds the node, and the splice
+      [*hep.n = ( *hep.n)->next] writes that one link -- the bucket's head
+      field or the [next] field of the predecessor -- after which the head
+      pointer spells the chain without exactly that node; the erased node's
+      own [next] field still holds its old successor *)
+  Theorem C03_links_erase_walk m h l e fuel :
+    spells m h l -> NoDup l -> (length l <= fuel)%nat ->
+    match l_erase_walk fuel m h e h SHead with
+    | Some None => ~ In e l
+    | Some (Some pp) =>
+      exists l1 l2 nx, l = l1 ++ e :: l2 /\ slot_get m h pp = Some (Some e) /\ rd m e = Some nx /\
+        spells (fst (slot_set m h pp nx)) (snd (slot_set m h pp nx)) (l1 ++ l2) /\
+        frame l1 m (fst (slot_set m h pp nx)) /\ rd (fst (slot_set m h pp nx)) e = Some nx
+    | None => False
+    end.
+  Proof. exact (l_erase_walk_exact m h l e fuel). Qed.
+
+  (** 11. read from the pointer-level side: whatever one operation of the
+      pointer-level model does from a state that represents [s] is what the
+      functional model does from [s] -- same results, same work log -- and is
+      therefore covered by theorem 2: invariant again, effect [post] on the
+      bags of live elements, abort only for an out-of-range hash function,
+      never a fault.  (The statements of C04 and C19 are about [r] and [w]
+      of [exec], which are the [r] and [w] of [lexec].) *)
+  Theorem C03_links_step_refines s ls o :
+    sys_inv s -> srel s ls ->
+    match lexec hf key ok ls o with
+    | LDone ls' r w =>
+      exists s', exec hf key fixed ok s o = XDone s' r w /\ srel s' ls' /\ sys_inv s' /\ post key s o s' r w
+    | LAbort => exec hf key fixed ok s o = XAbort /\ ~ in_range hf
+    | LFault => False
+    | LPrecond => exec hf key fixed ok s o = XPrecond
+    end.
+  Proof.
+    intros SI SR. pose proof (lexec_sim hf key ok Hdef s ls o SI SR) as X.
+    pose proof (exec_refines hf key ok Hdef s o SI) as R. unfold outcome_ok in R.
+    destruct (exec hf key fixed ok s o) as [s' r w| | |]; cbn [xsim] in X.
+    - destruct X as (ls' & -> & SR'). exists s'. destruct R. auto.
+    - rewrite X. auto.
+    - contradiction.
+    - rewrite X. reflexivity.
+  Qed.
+End C03_links.
+
+(** Non-vacuity: the history of [C03_example_run] on the pointer-level model
+    gives the same outputs, and the bounded walks over its final memory find
+    the chains of the functional model's final state. *)
+Example C03_links_example_run :
+  let key := fun e => nth e [0; 0; 1; 2; 5] 0 in
+  let ops := [Resize 0 2 (Some 1%nat); Resize 1 3 (Some 2%nat);
+              Insert 0 0; Insert 0 1; Insert 0 2; Insert 0 3; Resize 0 5 None; Find 0 0 (Some [0%nat]);
+              Resize 0 3 (Some 2%nat); Erase 0 1; Erase 0 4; Insert 1 4; Swap 0 1; Find 1 2 None;
+              Shrink 1; Insert 1 1; Foreach 1 true 2; Clear 0 true] in
+  match run (HashLinksModel.lstep hf_div key (fun _ _ => true)) (lsys_init 2) ops,
+        run (step hf_div key fixed (fun _ _ => true)) (sys_init 2) ops with
+  | (Done ls _, louts), (Done s _, outs) =>
+    louts = outs /\
+    map (fun lt => map (fun lb => l_chain (lfuel lt) (lmem ls) (hd lb)) (lbks lt)) (ltabs ls) =
+    map (fun t => map (fun b => Some (chain b)) (bks t)) (tabs s) /\
+    map live (tabs s) = [[]; [2; 3]%nat]
+  | _, _ => False
+  end.
+Proof. vm_compute. intuition. Qed.
+
 Print Assumptions C03_hash_inv_reachable.
 Print Assumptions C03_step_refines.
 Print Assumptions C03_run_safe.
@@ -167,3 +317,7 @@ Print Assumptions C03_find_exact.
 Print Assumptions C03_erase_exact.
 Print Assumptions C03_size_exact.
 Print Assumptions C03_insert_adds.
+Print Assumptions C03_links_run_refines.
+Print Assumptions C03_chains_wellformed.
+Print Assumptions C03_links_erase_walk.
+Print Assumptions C03_links_step_refines.
